@@ -179,7 +179,21 @@ StaleMacros(S0) == UNION { UNION {
       { MacroTimeoutStale(S0, c, P, old) : old \in { x \in S0.ch[c].cons : x >= 0 /\ ~G_DestElapsedAtProof(S0, c, P, x) } }
     : P \in { Q \in PendingTimeout(S0, c) : BlocksToElapse(S0, c, Q) <= 6 } } : c \in Chains }
 
-EdgeMacros(S0) == StaleMacros(S0) \cup
+\* Boundary race: the receive is attempted in the destination block that sits exactly on the timeout, then the
+\* source learns that very block and the timeout is proven at its height (the state before the block, where the
+\* packet is unreceived, with the block's height/time, which has reached the timeout).  Exactly one of the two
+\* may succeed.
+RaceTail(S0, c, P, hR) == LET o == Cp(c) IN
+    << Upd(o, hR), [a |-> Proto(P, "Timeout"), c |-> o, dt |-> 1, pkt |-> P, ph |-> hR,
+                    nsr |-> IF KIND = "ORDERED" THEN S0.ch[c].cur.nr ELSE 1] >>
+RaceMacros(S0) == UNION {
+         { MacroRecvEdgeH(S0, c, P, 0) \o RaceTail(S0, c, P, P.toH)
+             : P \in { Q \in PendingRecv(S0, c) : Q.proto = "v1" /\ Q.toH # 0 /\ Q.toH - 2 - S0.ch[c].h \in 0..8 } }
+    \cup { MacroRecvEdgeT(S0, c, P, 0) \o RaceTail(S0, c, P, S0.ch[c].h + 2)
+             : P \in { Q \in PendingRecv(S0, c) : Q.toT # 0 /\ EdgeTick(Q) - (S0.now + 2) \in 1..40 } }
+      : c \in Chains }
+
+EdgeMacros(S0) == StaleMacros(S0) \cup RaceMacros(S0) \cup
     UNION { UNION {
          { MacroRecvEdgeH(S0, c, P, k) : P \in { Q \in PendingRecv(S0, c) : Q.proto = "v1" /\ Q.toH # 0
                                                    /\ Q.toH - k - 2 - S0.ch[c].h \in 0..8 } }
